@@ -37,7 +37,6 @@ def register(w):
   w.add_class(ClassInfo('GraphVisitor', module='malt.pyct.cfg', fields={
       'graph': 'Graph', 'in_': 'Dict[Node,Any]', 'out': 'Dict[Node,Any]', 'stable': 'Set[Node]',
       'forward': 'bool'}))
-  w.add_class(ClassInfo('AST'))
   w.add_class(ClassInfo('_WalkMode', module='malt.pyct.cfg'))
 
   # abstract interface contract: what _visit_internal may assume about any visit_node
